@@ -23,8 +23,9 @@ type Plan struct {
 	Workers  int         `json:"workers"`
 	Children [][]int     `json:"children"` // children[i]: items added while processing item i
 	Initial  []int       `json:"initial"`
-	Before   []int       `json:"before"` // yields before adding children, per item
-	After    []int       `json:"after"`  // yields after adding children, per item
+	Before   []int       `json:"before"`             // yields before adding children, per item
+	After    []int       `json:"after"`              // yields after adding children, per item
+	WaitFor  []int       `json:"wait_for,omitempty"` // per item: after adding its children, f blocks until this child (index into children) has started; -1 none
 	Sched    simrt.Sched `json:"sched"`
 }
 
@@ -40,6 +41,11 @@ func genPlan(t *rapid.T, tier string) any {
 		p.Children = append(p.Children, rapid.SliceOfN(rapid.IntRange(0, n-1), 0, 3).Draw(t, "children"))
 		p.Before = append(p.Before, rapid.IntRange(0, 2).Draw(t, "before"))
 		p.After = append(p.After, rapid.IntRange(0, 2).Draw(t, "after"))
+		w := -1
+		if len(p.Children[i]) > 0 && rapid.IntRange(0, 3).Draw(t, "rendezvous") == 0 {
+			w = rapid.IntRange(0, len(p.Children[i])-1).Draw(t, "waitfor")
+		}
+		p.WaitFor = append(p.WaitFor, w)
 	}
 	p.Initial = rapid.SliceOfN(rapid.IntRange(0, n-1), 0, 3).Draw(t, "initial")
 	p.Sched = gen.Sched(t, 400)
@@ -77,6 +83,19 @@ func run(t *testing.T, plan any, keep bool) *simcheck.Outcome {
 	simrand.Draws = 0
 	want := closure(p)
 
+	// Rendezvous: a call of f may wait until one of the items it just added has
+	// started. At most n-1 items are allowed to wait, so a worker that is not
+	// waiting always exists and a correct Work always makes progress; a lost
+	// wake-up (an idle worker that is never told about queued work) then shows
+	// as a deadlock instead of as mere loss of parallelism.
+	waits := map[int]int{}
+	for i, w := range p.WaitFor {
+		if w >= 0 && i < len(p.Children) && w < len(p.Children[i]) && len(waits) < p.Workers-1 {
+			waits[i] = p.Children[i][w]
+		}
+	}
+	started := map[int]bool{}
+	rendezvous := 0
 	calls := map[int]int{}
 	runners := map[int]bool{}
 	inflight, maxInflight := 0, 0
@@ -93,6 +112,7 @@ func run(t *testing.T, plan any, keep bool) *simcheck.Outcome {
 			if returned {
 				out.Violate("call-after-return", "f(%d) called after Do returned", i)
 			}
+			started[i] = true
 			calls[i]++
 			if calls[i] > 1 {
 				out.Violate("double-run", "item %d passed to f %d times", i, calls[i])
@@ -115,6 +135,10 @@ func run(t *testing.T, plan any, keep bool) *simcheck.Outcome {
 			}
 			for _, c := range p.Children[i] {
 				w.Add(c)
+			}
+			if c, ok := waits[i]; ok && !started[c] {
+				rendezvous++
+				simrt.Block("f.rendezvous", func() bool { return started[c] })
 			}
 			for k := 0; k < p.After[i]; k++ {
 				simrt.Yield("f.after")
@@ -161,6 +185,7 @@ func run(t *testing.T, plan any, keep bool) *simcheck.Outcome {
 	if maxInflight == p.Workers && p.Workers >= 2 {
 		out.Count("probe_all_workers_busy", 1)
 	}
+	out.Count("probe_rendezvous_waits", int64(rendezvous))
 	if len(p.Initial) == 0 {
 		out.Count("probe_empty_initial_set", 1)
 	}
@@ -172,7 +197,7 @@ var harness = &simcheck.Harness{
 	Property: "C09",
 	Level:    "exploration",
 	Rule: "rapid draws a worker count (1-4), an item graph (children lists with duplicates, self loops and cycles), the initial adds, " +
-		"yield counts inside f, and a schedule (pct with change points / uniform random / sticky); a case is non-trivial when at least two " +
+		"yield counts inside f, rendezvous points (a call of f waits until a child it added has started; at most n-1 items may wait), and a schedule (pct with change points / uniform random / sticky); a case is non-trivial when at least two " +
 		"different runner tasks executed f, and distinct by the hash of its full decision trace (task, seam) sequence",
 	Gen:     genPlan,
 	NewPlan: func() any { return &Plan{} },
